@@ -183,7 +183,20 @@ func checkFailure(r *Run, twin *Run, ev *Eval, fj *JobRec, m manifest, persisten
 		out = append(out, Violation{"C06", oracle, desc + ": " + msg, r.Steps})
 	}
 	if r.Class() == "step-budget" {
+		// the run was still moving when the step budget ran out: inconclusive,
+		// unless what kept it moving is the failing job being run again and again
 		r.Probes["step-budget-exhausted"]++
+		n := 0
+		for _, j := range r.Jobs {
+			if j.Key() == fj.Key() && j.Phase == fj.Phase && j.Inc == 1 {
+				n++
+			}
+		}
+		if m.class == "hard" && n > 1 {
+			add("non-transient-error-retried", fmt.Sprintf("the failing job was executed %d times by the first mrp", n))
+		} else if n > 1+retries {
+			add("too-many-retries", fmt.Sprintf("the failing job was executed %d times with --autoretry=%d and mrp was still running", n, retries))
+		}
 		return out
 	}
 	if len(r.ExitCodes) == 0 {
